@@ -18,8 +18,8 @@ def dy(x, bits=6):
     return repr(k / float(1 << bits))
 
 
-def rand_u(rng):
-    """random anisotropic U (float-exact entries), B eigenvalues between 2 and 120 A^2."""
+def rand_u(rng, los=(2, 5, 10, 20, 40)):
+    """random anisotropic U (float-exact entries), B eigenvalues between 2 and 120 A^2 (or from `los`)."""
     # random rotation from a random unit quaternion
     q = [rng.gauss(0, 1) for _ in range(4)]
     n = math.sqrt(sum(x * x for x in q))
@@ -27,7 +27,7 @@ def rand_u(rng):
     R = [[a*a+b*b-c*c-d*d, 2*(b*c-a*d), 2*(b*d+a*c)],
          [2*(b*c+a*d), a*a-b*b+c*c-d*d, 2*(c*d-a*b)],
          [2*(b*d-a*c), 2*(c*d+a*b), a*a-b*b-c*c+d*d]]
-    lo = rng.choice([2, 5, 10, 20, 40])
+    lo = rng.choice(list(los))
     ev = [rng.uniform(lo, lo * rng.choice([1.0, 1.5, 3, 6])) / (8 * math.pi ** 2) for _ in range(3)]
     U = [[sum(R[i][k] * ev[k] * R[j][k] for k in range(3)) for j in range(3)] for i in range(3)]
     return [dy(U[0][0], 14), dy(U[1][1], 14), dy(U[2][2], 14), dy(U[0][1], 14), dy(U[0][2], 14), dy(U[1][2], 14)], ev
@@ -92,6 +92,25 @@ def gen_lines(rng, t, quick):
             lines.append('panisof\t%s %d %s %s %s' % (tb, i, r, ' '.join(U), ad))
             Bm = [repr(float(x) * 8 * math.pi ** 2) for x in U]
             lines.append('panisob\t%s %d %s %s %s' % (tb, i, r, ' '.join(Bm), ad))
+        # far tails of sharp atoms: the exponent of the narrowest Gaussian is far below -88, where the float
+        # path clamps the argument of its approximate exp (iso and aniso)
+        for _ in range(1 if quick else 10):
+            if tb == 'X' and float(min(t['X'][i][4:8])) < 0:
+                break     # published ion rows with a negative b need b + B > 0: no sharp atoms there
+            U, ev = rand_u(rng, (0.5, 1, 2, 5))
+            d = [rng.gauss(0, 1) for _ in range(3)]
+            nd = math.sqrt(sum(x * x for x in d)) or 1.0
+            rad = rng.uniform(1.2, 8.0)
+            r = ' '.join(dy(x / nd * rad, 8) for x in d)
+            ad = rng.choice(['0', '0', '1.25'])
+            lines.append('paniso\t%s %d %s %s %s' % (tb, i, r, ' '.join(U), ad))
+            lines.append('panisof\t%s %d %s %s %s' % (tb, i, r, ' '.join(U), ad))
+            Biso = float(dy(rng.choice([0.5, 1, 2, 5]), 3))
+            if tb == 'X':
+                Biso = max(Biso, 1.0 - float(min(t['X'][i][4:8])))
+            r2 = dy(rad * rad, 8)
+            lines.append('piso\t%s %d %s %r %s' % (tb, i, r2, Biso, ad))
+            lines.append('pisof\t%s %d %s %r %s' % (tb, i, r2, Biso, ad))
     # 3-D quadrature oracle (expensive): a sample of rows with random anisotropic tensors and s vectors
     pick = rng.sample(rows, 14 if quick else 250) + [('X', 6), ('X', 26), ('E', 8), ('N', 1)]
     for tb, i in pick:
